@@ -14,9 +14,17 @@ def build64(cls, **kw):
         torch.set_default_dtype(old)
 
 
-def _wave(L2):
+def _wave(L2, axis='c'):
     L2 = max(1, min(19, int(L2)))
-    return pywt.Wavelet('db%d' % L2)
+    w = pywt.Wavelet('db%d' % L2)
+    rtc.EFF['L' + axis] = w.dec_len
+    return w
+
+
+def _named(name, axis='c'):
+    w = pywt.Wavelet(name)
+    rtc.EFF['L' + axis] = w.dec_len
+    return w
 
 
 def _mode(m):
@@ -47,7 +55,7 @@ def check_dwt_forward(cfg, sizes, rnd):
     from pytorch_wavelets.dwt.transform2d import DWTForward
     dim, mode = cfg['dim'], cfg['mode']
     wc = _wave(sizes.get('Lc2', sizes.get('L2', 2)))
-    wr = _wave(sizes.get('Lr2', 1)) if cfg.get('waveform') == 'tuple4' else wc
+    wr = _wave(sizes.get('Lr2', 1), 'r') if cfg.get('waveform') == 'tuple4' else wc
     J = _sz(sizes, 'J', 1, 1, 3)
     Bn, C = _sz(sizes, 'B', 1, 1, 2), _sz(sizes, 'C', 1, 1, 2)
     m = _mode(mode)
@@ -104,7 +112,7 @@ def check_dwt_inverse(cfg, sizes, rnd):
     from pytorch_wavelets.dwt.transform2d import DWTInverse
     dim, mode = cfg['dim'], cfg['mode']
     wc = _wave(sizes.get('Lc2', sizes.get('L2', 2)))
-    wr = _wave(sizes.get('Lr2', 1)) if cfg.get('waveform') == 'tuple4' else wc
+    wr = _wave(sizes.get('Lr2', 1), 'r') if cfg.get('waveform') == 'tuple4' else wc
     J = _sz(sizes, 'J', 1, 1, 3)
     Bn, C = _sz(sizes, 'B', 1, 1, 2), _sz(sizes, 'C', 1, 1, 2)
     m = _mode(mode)
@@ -167,6 +175,7 @@ def check_dwt_grad(cfg, sizes, rnd):
     ana = cls.startswith('AFB')
     L = 2 * _sz(sizes, 'L2', 2, 1, 8)
     Lr = 2 * _sz(sizes, 'Lr2', sizes.get('L2', 2), 1, 8)
+    rtc.EFF.update(Lc=L, Lr=(L if one_d else Lr), J=1)
     Bn, C = 1, _sz(sizes, 'C', 1, 1, 2)
     mi = lowlevel.mode_to_int(mode)
     rs = rtc.RState(rnd.randint(0, 10**6))
@@ -284,7 +293,7 @@ def check_nonsep(cfg, sizes, rnd):
     from pytorch_wavelets.dwt import lowlevel
     mode, nf, kind = cfg['mode'], cfg.get('nf', 4), cfg.get('kind', 'afb')
     wc = _wave(sizes.get('L2', sizes.get('Lc2', 2)))
-    wr = _wave(sizes.get('Lr2', 1)) if nf == 4 else wc
+    wr = _wave(sizes.get('Lr2', 1), 'r') if nf == 4 else wc
     H, W = _sz(sizes, 'H', 6, 1, 20), _sz(sizes, 'W', 5, 1, 20)
     C = _sz(sizes, 'C', 2, 1, 3)
     rs = rtc.RState(rnd.randint(0, 10**6))
@@ -325,7 +334,7 @@ def check_dwt_pr(cfg, sizes, rnd):
     warnings.simplefilter('ignore')
     dim, mode = cfg['dim'], cfg['mode']
     name = cfg.get('wave')
-    w = pywt.Wavelet(name) if name else _wave(sizes.get('Lc2', sizes.get('L2', 2)))
+    w = _named(name) if name else _wave(sizes.get('Lc2', sizes.get('L2', 2)))
     J = _sz(sizes, 'J', 2, 1, 4)
     m = _mode(mode)
     rs = rtc.RState(rnd.randint(0, 10**6))
@@ -371,7 +380,7 @@ def check_dwt_orth(cfg, sizes, rnd):
     from pytorch_wavelets.dwt.transform1d import DWT1DForward, DWT1DInverse
     from pytorch_wavelets.dwt.transform2d import DWTForward, DWTInverse
     dim = cfg['dim']
-    w = pywt.Wavelet(cfg['wave']) if cfg.get('wave') else _wave(sizes.get('L2', 2))
+    w = _named(cfg['wave']) if cfg.get('wave') else _wave(sizes.get('L2', 2))
     J = _sz(sizes, 'J', 2, 1, 3)
     mult = _sz(sizes, 'm', 1, 1, 4)
     N = (w.dec_len + 2 * mult) // 2 * 2 * 2 ** (J - 1)
@@ -397,7 +406,7 @@ def check_dwt_orth(cfg, sizes, rnd):
 def check_swt_forward(cfg, sizes, rnd):
     """real SWTForward vs pywt.swt2 (and circular-shift equivariance)"""
     from pytorch_wavelets.dwt.transform2d import SWTForward
-    w = pywt.Wavelet(cfg['wave']) if cfg.get('wave') else _wave(sizes.get('Lc2', sizes.get('L2', 2)))
+    w = _named(cfg['wave']) if cfg.get('wave') else _wave(sizes.get('Lc2', sizes.get('L2', 2)))
     J = min(4, max(_sz(sizes, 'J', 2, 1, 3), int(cfg.get('minJ', 1))))
     mh, mw = _sz(sizes, 'mh', 2, 1, 6), _sz(sizes, 'mw', 3, 1, 6)
     H, W = mh * 2 ** J, mw * 2 ** J
